@@ -85,63 +85,50 @@ fn int_of(v: &Option<Value>) -> i64 {
     }
 }
 
-// @verif props=C03 tier=quick cap=900 group=core fns=Context::load,Context::store,Context::push_frame,Context::pop_frame
-/// Variable resolution order and scoping on a two-frame context (an outer frame and an inner with/loop/macro
-/// frame, each optionally attached to a closure) for EVERY combination of where the name `x` is bound (inner
-/// locals, inner closure, outer locals, outer closure - four symbolic booleans, distinct values): load returns
-/// the innermost binding in the order locals > closure > outer frame; a store into the inner frame shadows
-/// everything and is gone after pop_frame, after which the outer binding is visible again unchanged.
+// @verif props=C03 tier=experimental cap=900 group=core fns=Context::load,Context::push_frame,Context::pop_frame
+/// Variable resolution order on a two-frame context (an outer frame and an inner with/loop/macro frame, each
+/// attached to a closure): the bindings are a (everywhere), b (inner closure, outer locals, outer closure),
+/// c (outer locals, outer closure), d (outer closure only), each location holding a different value; for EVERY
+/// looked-up name among {a, b, c, d, e} load returns the innermost binding in the order inner locals > inner
+/// closure > outer locals > outer closure > nothing, and after pop_frame the inner frame's bindings are gone.
 #[kani::proof]
-#[kani::unwind(6)]
+#[kani::unwind(8)]
 #[kani::stub(std::hash::RandomState::new, crate::verif_common::random_state_stub)]
 #[kani::stub(alloc::fmt::format, crate::verif_common::format_stub)]
 fn c03_context_lookup_order_and_scoping() {
     let env = leaked_env(500);
-    let in_local: bool = kani::any();
-    let in_closure: bool = kani::any();
-    let out_local: bool = kani::any();
-    let out_closure: bool = kani::any();
     let mut closures: Vec<Closure<'static>> = vec![Closure::new(), Closure::new()];
-    if out_closure {
-        closures[0].insert("x", Value::from(4i64));
+    for k in ["a", "b", "c", "d"] {
+        closures[0].insert(k, Value::from(4i64));
     }
-    if in_closure {
-        closures[1].insert("x", Value::from(2i64));
+    for k in ["a", "b"] {
+        closures[1].insert(k, Value::from(2i64));
     }
     let mut ctx = Context::new(env);
     let mut outer = Frame::new(Value::UNDEFINED);
     outer.closure_context = Some(0);
-    if out_local {
-        outer.locals.insert("x", Value::from(3i64));
+    for k in ["a", "b", "c"] {
+        outer.locals.insert(k, Value::from(3i64));
     }
     let mut inner = Frame::new(Value::UNDEFINED);
     inner.closure_context = Some(1);
-    if in_local {
-        inner.locals.insert("x", Value::from(1i64));
-    }
+    inner.locals.insert("a", Value::from(1i64));
     assert!(ctx.push_frame(outer).is_ok());
     assert!(ctx.push_frame(inner).is_ok());
-    let want = if in_local { 1 } else if in_closure { 2 } else if out_local { 3 } else if out_closure { 4 } else { 0 };
-    let got = ctx.load(&closures, "x");
-    assert!(int_of(&got) == want);
+    let which: u8 = kani::any();
+    kani::assume(which < 5);
+    let key = ["a", "b", "c", "d", "e"][which as usize];
+    let got = ctx.load(&closures, key);
+    assert!(int_of(&got) == [1, 2, 3, 4, 0][which as usize]);
     core::mem::forget(got);
-    // another name is not affected by bindings of x
-    let other = ctx.load(&closures, "y");
-    assert!(other.is_none());
-    // an assignment in the inner scope shadows every other binding ...
-    ctx.store(&mut closures, "x", Value::from(9i64));
-    let got2 = ctx.load(&closures, "x");
-    assert!(int_of(&got2) == 9);
-    core::mem::forget(got2);
-    // ... and is invisible once the scope is left
+    // leaving the inner scope: its locals and its closure are no longer consulted
     let popped = ctx.pop_frame();
     core::mem::forget(popped);
-    let got3 = ctx.load(&closures, "x");
-    assert!(int_of(&got3) == if out_local { 3 } else if out_closure { 4 } else { 0 });
-    core::mem::forget(got3);
-    kani::cover!(in_local && in_closure);
-    kani::cover!(!in_local && in_closure && out_local);
-    kani::cover!(!in_local && !in_closure && !out_local && out_closure);
+    let got2 = ctx.load(&closures, key);
+    assert!(int_of(&got2) == [3, 3, 3, 4, 0][which as usize]);
+    core::mem::forget(got2);
+    kani::cover!(which == 0);
+    kani::cover!(which == 4);
     core::mem::forget((ctx, closures));
 }
 
